@@ -949,6 +949,18 @@ impl Property for P16 {
                 }
             }
         }
+        // the default limit itself: a payload of exactly 512 KiB is written, one byte more is refused without a byte reaching the sink
+        {
+            let it = |v: ValSpec| Item { kind: ItemKind::Val(v), sync_before: false, flush_after: false };
+            let small = ValSpec { ty: Ty::Bytes, size: 3, seed: 7 };
+            for g in [u32::MAX, 65_536, 100_000] {
+                let lane = if g == u32::MAX { vec![] } else { vec![Step::Xfer(g); 12] };
+                out.push(C16 { sink: lane.clone(), ..base(vec![it(small.clone()), it(bytes_spec_with_encoding_len(DEFAULT_MAX_LEN)), it(small.clone())]) });
+                let mut over = it(bytes_spec_with_encoding_len(DEFAULT_MAX_LEN + 1));
+                over.sync_before = true;
+                out.push(C16 { sink: lane, ..base(vec![it(small.clone()), over, Item { sync_before: true, ..it(small.clone()) }]) });
+            }
+        }
         let mut all: Vec<S16> = out.into_iter().map(S16::Single).collect();
         all.extend(crate::pipe::PipeSc::sweeps().into_iter().map(S16::Pipe));
         all
